@@ -134,7 +134,7 @@ def run_case(case):
     if case['spill']:
         n = rng.choice([10241, 12000])
     else:
-        n = rng.choice([0, 1, 2, 5, 50, 50, 200, 1000])
+        n = rng.choice([0, 1, 2, 5, 50, 50, 200, 999, 1000, 1001])
     reverse = rng.random() < 0.4
     batch = rng.choice([1, 2, 7, 1000]) if n <= 1000 else rng.choice([7, 1000])
     # key fields + typed key function
